@@ -7,6 +7,7 @@
   ParserErrors and (being errors) change nothing.
 -/
 import Sq.Machine
+import SqLemmas.DictRefine
 namespace SqProps.C14
 open Sq
 
@@ -171,5 +172,35 @@ theorem push_appends (s : BState) (a : Nat) (xs : List Val) (v : Val)
     b_push [.ref a, v] s = .ok (.none, { s with heap := s.heap.set a (.list (xs ++ [v])) }) := by
   have : ¬ (xs.length ≥ maxArraySize) := by omega
   simp [b_push, checkArraySize, pyLen, hg, this, ret]
+
+/-! ### [B] refinement over whole operation sequences (SqLemmas/DictRefine.lean) -/
+
+/-- on string keys (every key the language produces, after `_dict_key_cast`) the heap-level write and delete
+    ARE the association-list operations the refinement theorem is about -/
+theorem dictSet_is_implStep (h : Heap) (kvs : List (Val × Val)) (ks : Name) (v : Val) :
+    dictSet h kvs (.str ks) v = .ok (implStep kvs (.set ks v)) := rfl
+
+theorem dictErase_is_implStep (h : Heap) (kvs : List (Val × Val)) (ks : Name) :
+    dictErase h kvs (.str ks) = .ok (implStep kvs (.del ks)) := rfl
+
+/-- **ops_refine (dict)**: under ANY sequence of writes and deletes, starting from any well-formed dict (string
+    keys, none twice — e.g. the empty dict or a dict literal), the dict holds exactly what the mathematical dict
+    holds: the same map from keys to values, the same key order; and stays well-formed -/
+theorem ops_refine_dict (ops : List DOp) (kvs : List (Val × Val)) (hw : WFD kvs) :
+    absMap (ops.foldl implStep kvs) = ops.foldl specMap (absMap kvs) ∧
+    absOrder (ops.foldl implStep kvs) = ops.foldl specOrder (absOrder kvs) ∧
+    WFD (ops.foldl implStep kvs) := dict_ops_refine ops kvs hw
+
+/-- … what `keys`, `len`, and every read / `values` / `items` entry observe is that mathematical dict -/
+theorem observers_see_the_spec (kvs : List (Val × Val)) (hw : WFD kvs) :
+    kvs.map (·.1) = (absOrder kvs).map Val.str ∧ kvs.length = (absOrder kvs).length ∧
+    (∀ s v, (Val.str s, v) ∈ kvs → absMap kvs s = some v) ∧
+    (∀ s, dictFind #[] kvs (.str s) = .ok (absMap kvs s)) :=
+  ⟨keys_are_order kvs hw, len_is_order_length kvs hw, entry_is_mapped kvs hw, fun _ => rfl⟩
+
+/-- the empty dict is well-formed (non-vacuity), and a write followed by a delete of another key, then reads -/
+example : WFD [] := wfd_nil
+example : absMap ([DOp.set ['a'] (.int 1), .set ['b'] (.int 2), .del ['a'], .set ['b'] (.int 3)].foldl implStep []) ['b']
+    = some (.int 3) := by rfl
 
 end SqProps.C14
